@@ -44,9 +44,10 @@ contract(
     ensures=lambda c: z3.And(SigInfoInv(c.heap, c['self']),
                              c.heap.fld(ref(c['self']), 'signature')
                              == c.old.fld(ref(c['self']), 'signature')),
-    writes=('_var_positional_start', 'has_var_keyword'),
+    writes=('_var_positional_start', 'has_var_keyword'), mod=lambda c: [ref(c['self'])],
     result='none', allocates=False,
-    loops={0: Loop(_pi_inv, mod=lambda c: [], fields=['_var_positional_start', 'has_var_keyword'])},
+    loops={0: Loop(_pi_inv, mod=lambda c: [ref(c['self'])],
+                   fields=['_var_positional_start', 'has_var_keyword'])},
     props=('C01', 'C03'),
 )
 
